@@ -245,6 +245,24 @@ def gen_vmtar(repo):
         out.append(f"Definition vmtar_{n}_width : Z := {w}.")
         out.append(f"Definition vmtar_{n}_signed : bool := {'true' if s else 'false'}.")
         out.append(f"Definition vmtar_{n}_big : bool := {'true' if be else 'false'}.")
+    # the tables of the tarfile module this interpreter runs (an external dependency of vmtar.py): the hand-written
+    # model of tarfile is checked against them (Proofs/VmTar.v tarfile_tables)
+    import tarfile as _tf
+    try:
+        tables = {"SUPPORTED_TYPES": _tf.SUPPORTED_TYPES, "REGULAR_TYPES": _tf.REGULAR_TYPES, "GNU_TYPES": _tf.GNU_TYPES}
+        pax_types = (_tf.XHDTYPE, _tf.XGLTYPE, _tf.SOLARIS_XHDTYPE)
+        scalars = {"BLOCKSIZE": _tf.BLOCKSIZE, "DIRTYPE": _tf.DIRTYPE[0], "AREGTYPE": _tf.AREGTYPE[0],
+                   "GNUTYPE_LONGNAME": _tf.GNUTYPE_LONGNAME[0], "GNUTYPE_LONGLINK": _tf.GNUTYPE_LONGLINK[0],
+                   "GNUTYPE_SPARSE": _tf.GNUTYPE_SPARSE[0], "LNKTYPE": _tf.LNKTYPE[0], "SYMTYPE": _tf.SYMTYPE[0]}
+    except AttributeError as e:
+        raise TranslateError(f"tarfile module lacks an expected table: {e}")
+    for k, v in tables.items():
+        if not all(isinstance(t, bytes) and len(t) == 1 for t in v):
+            raise TranslateError(f"tarfile.{k} is not a tuple of one-byte type flags")
+        out.append(f"Definition tarfile_{k} : list Z := [{'; '.join(str(t[0]) for t in v)}].")
+    out.append(f"Definition tarfile_PAX_TYPES : list Z := [{'; '.join(str(t[0]) for t in pax_types)}].")
+    for k, v in scalars.items():
+        out.append(f"Definition tarfile_{k} : Z := {v}.")
     params = " ".join(["(is_visor : bool)"] + [f"({n} : Z)" for n in sorted(int_attrs)])
     out.append("(* VisorTarInfo._proc_member: when true the next header follows this one immediately and the\n"
                "   decoded offset_data is kept; otherwise tarfile.TarInfo._proc_member runs *)")
